@@ -72,6 +72,69 @@ def check(ctx):
     return conclude(ctx, "model_checking", cov, violations, ASSUME)
 
 
+def selftest(ctx):
+    """binding: corrupted recorded calls must be flagged; negative model: evicting a non-minimum must break Prop."""
+    import shutil, random
+    ok = True
+    cargo_build(ctx, ["addrbook"])
+    harness(ctx, "addrbook", ["--random", 4, "--len", 200, "--filter", 1, "--per-class", 1, "--dial", 40, "--seed", ctx.seed, "--out", ctx.path("t.ndjson")])
+    lines = read_lines(ctx.path("t.ndjson"))
+    _, _, base = validate_all(ctx, "AddrBookTrace.tla", "AddrBookTrace.cfg", lines)
+    rnd = random.Random(ctx.seed)
+
+    def mutate(kind):
+        idxs = list(range(len(lines)))
+        rnd.shuffle(idxs)
+        for i in idxs:
+            d = json.loads(lines[i])
+            if kind == "score-changed-on-other-address" and d["e"] == "insert" and len(d["post"]) > 3:
+                k = [x for x in d["post"] if x != d["a"]][0]
+                d["post"][k] += 5
+            elif kind == "dial-order-reversed" and d["e"] == "dial_order" and len(d["open"]) >= 2 and d["scores"][d["open"][0]] != d["scores"][d["open"][-1]]:
+                d["open"] = d["open"][::-1]
+            elif kind == "foreign-peer-address-stored" and d["e"] == "add_known" and d["sh"]["tail"] == "foreign" and not d["stored"]:
+                d["stored"] = True
+            elif kind == "rediscovery-wipes-score" and d["e"] == "rediscover" and any(v != 0 for v in d["post"].values()):
+                k = [x for x, v in d["post"].items() if v != 0][0]
+                d["post"][k] = 0
+            else:
+                continue
+            return i, lines[:i] + [json.dumps(d, separators=(",", ":"))] + lines[i + 1:]
+        return None, None
+
+    for kind in ["score-changed-on-other-address", "dial-order-reversed", "foreign-peer-address-stored", "rediscovery-wipes-score"]:
+        i, mut = mutate(kind)
+        if mut is None:
+            log("selftest %s: no candidate line" % kind)
+            ok = False
+            continue
+        _, _, rej = validate_all(ctx, "AddrBookTrace.tla", "AddrBookTrace.cfg", mut, tag="m")
+        caught = len(rej) > len(base)
+        log("selftest binding %-34s line %d -> %s" % (kind, i + 1, "flagged (%s)" % sorted({r.reason for r in rej}) if caught else "NOT FLAGGED"))
+        ok &= caught
+    src = open(os.path.join(SPEC, "AddrBook.tla")).read()
+    negs = [("evict-any-record", "ELSE {(a :> sc) @@ Restrict(S, Dom(S) \\ {v}) : v \\in Mins(S)}", "ELSE {(a :> sc) @@ Restrict(S, Dom(S) \\ {v}) : v \\in Dom(S)}"),
+            ("rediscovery-overwrites", "{IF score # 0 THEN [S EXCEPT ![a] = score] ELSE S}", "{[S EXCEPT ![a] = score]}"),
+            ("unbounded", "IF Cardinality(Dom(S)) >= K", "IF Cardinality(Dom(S)) >= K + 1")]
+    for name, a, b in negs:
+        a = a.replace("\\\\", "\\"); b = b.replace("\\\\", "\\")
+        if a not in src:
+            log("selftest negative %s: pattern not found" % name)
+            ok = False
+            continue
+        d = ctx.path("neg_" + name)
+        os.makedirs(d, exist_ok=True)
+        open(os.path.join(d, "AddrBook.tla"), "w").write(src.replace(a, b))
+        shutil.copy(os.path.join(SPEC, "AddrBookMC.tla"), d)
+        cfg = write_cfg(ctx, "neg_%s.cfg" % name, dict(BASE, K=2, MaxOps=4), MCL)
+        r = tlc_mc(ctx, os.path.join(d, "AddrBookMC.tla"), cfg, workers=6, expect_violation=True)
+        viol = "is violated" in r["out"] or "was violated" in r["out"]
+        log("selftest negative %-28s -> %s" % (name, "violation found" if viol else "NO VIOLATION"))
+        ok &= viol
+    log("SELFTEST %s" % ("ok" if ok else "FAILED"))
+    return 0 if ok else 2
+
+
 def replay(ctx, path):
     obj = json.load(open(path))
     seg = [json.dumps(obj["header"], separators=(",", ":"))] + [json.dumps(x, separators=(",", ":")) for x in obj["segment"] if x.get("e") != "reset"]
